@@ -34,6 +34,12 @@ var passThrough = map[string]bool{
 func (w *World) flowSinks(src ssa.Value) []flowSink {
 	var sinks []flowSink
 	seen := map[ssa.Value]bool{}
+	// srcFn: returns of the function the flow starts in are followed to its callers only when
+	// the source is a call made in it (a value produced there), not when it is a parameter
+	var srcFn *ssa.Function
+	if p, ok := src.(*ssa.Parameter); ok {
+		srcFn = p.Parent()
+	}
 	var visit func(v ssa.Value)
 	visit = func(v ssa.Value) {
 		if v == nil || seen[v] {
@@ -90,7 +96,34 @@ func (w *World) flowSinks(src ssa.Value) []flowSink {
 					}
 				}
 			case *ssa.Return:
-				sinks = append(sinks, flowSink{Kind: "return", Name: FuncName(x.Parent()), Pos: x})
+				idx := 0
+				for i, rv := range x.Results {
+					if rv == v {
+						idx = i
+					}
+				}
+				sinks = append(sinks, flowSink{Kind: "return", Name: FuncName(x.Parent()), Idx: idx, Pos: x})
+				// a module function handing the value back: go on at its static call sites
+				// (result idx of a tuple, or the call value itself)
+				if g := x.Parent(); g != nil && w.InModule(g) && g != srcFn {
+					for _, caller := range w.ModFuncs {
+						for _, ci := range findCalls(caller, func(_ string, c *ssa.CallCommon) bool { return c.StaticCallee() == g }) {
+							cv, ok := ci.(*ssa.Call)
+							if !ok {
+								continue
+							}
+							if len(x.Results) == 1 {
+								visit(cv)
+							} else if cv.Referrers() != nil {
+								for _, ref := range *cv.Referrers() {
+									if ex, ok := ref.(*ssa.Extract); ok && ex.Index == idx {
+										visit(ex)
+									}
+								}
+							}
+						}
+					}
+				}
 			case ssa.CallInstruction:
 				c := x.Common()
 				name := calleeName(c)
